@@ -166,7 +166,6 @@ func PuppetQuote(w io.Writer, str string) {
 	begin := b.Len()
 
 	WriteByte(b, '\'')
-	escaped := false
 	for c := r.Next(); c != 0; c = r.Next() {
 		if c < 0x20 {
 			r.Rewind()
@@ -175,24 +174,15 @@ func PuppetQuote(w io.Writer, str string) {
 			return
 		}
 
-		if escaped {
-			WriteByte(b, '\\')
-			WriteRune(b, c)
-			escaped = false
-			continue
-		}
-
 		switch c {
 		case '\'':
 			WriteString(b, `\'`)
 		case '\\':
-			escaped = true
+			// every backslash is escaped: the parser reads \\ as one backslash and rejects an unknown escape
+			WriteString(b, `\\`)
 		default:
 			WriteRune(b, c)
 		}
-	}
-	if escaped {
-		WriteByte(b, '\\')
 	}
 	WriteByte(b, '\'')
 }
